@@ -221,12 +221,21 @@ def check(run, model, tier):
                     run.inst('DELEGATE.once', f, 'forwards (%s)' % ', '.join(passed), ok2,
                              '' if ok2 else 'the override passes (%s) to its base, its own parameters are (%s)' % (', '.join(passed), ', '.join(want)), node=c)
     run.floor('host overrides of dispatch/start_at', n_del, 6)
+    # ---- a wrapper that loses an exception changes behaviour too: on the plain processor a handler that raises stops the step and the caller sees the exception
+    from props.c24 import exceptions_propagate
+    exceptions_propagate(run, model)
     # ---- SIGSET.reflection
     n_ref = 0
+    log_ = getattr(model, 'inlined', [])
+    spent = {q for q, _c, st_ in log_ if st_ == 'inlined'} & {q for q, _c, st_ in log_ if st_ == 'kept: never called'}
     for f in model.all_funcs():
         refl = [c for c in shallow_calls(f.node) if isinstance(c.func, ast.Name) and c.func.id in ('Event', 'HsmEvent')
                 and any(signal_const(x) == 'REFLECTION_SIGNAL' for x in ast.walk(c))]
         if not refl:
+            continue
+        if f.qualname in spent:
+            # a helper outside the pinned inventory whose every call inside the package was written out at the call site (where the sends are judged in their
+            # context): what is left is an entry point nothing in the package uses
             continue
         g = cfg_of(f)
         recv = cg.receiver_var(f)
